@@ -208,6 +208,17 @@ func Cleanup(pipe *pubsub.Queue[fun.Worker], timeout time.Duration) *Service {
 
 			ec := &erc.Collector{}
 
+			// Run stops reading the queue as soon as its context
+			// ends: pick up the functions that were accepted before
+			// the shutdown but not yet moved to the cache.
+			for {
+				item, ok := pipe.Remove()
+				if !ok {
+					break
+				}
+				cache.PushBack(item)
+			}
+
 			ec.Add(itertool.ParallelForEach(ctx, cache.PopIterator(),
 				func(ctx context.Context, wf fun.Worker) error {
 					ec.Add(wf.WithRecover().Run(ctx))
